@@ -65,6 +65,9 @@ func Core() Spec {
 		fix(Send(B, C, B1, "0", ".-5")),
 		fix(Send(B, C, B1, ".-5", "0")),
 		fix(Send(B, C, B1, "+.-5", "0")), // the same with a sign in front of the point as well
+		fix(Send(B, C, B1, "0", "+.-5")),
+		fix(Retire(B, B1, "+.-5")),
+		fix(Cancel(C, B1, "+.-25")),
 		fix(Retire(B, B1, ".-5")),
 		fix(Cancel(C, B1, ".-25")),
 		MintFresh(A, B1, B, ".-5", "0"),
